@@ -144,23 +144,27 @@ func typedNameHelpers(p *Prog, R *BusRoles) []*ssa.Function {
 	return out
 }
 
+// checkTypedHelperSpec decides the typed name helper (eventTypeNameOf[T]) by evaluating it
+// on the abstract shapes of T: {interface kind?} × {T implements TypeNamer?} × {pointer
+// kind?}. For each shape the function is walked along the one path its conditions select
+// (comparisons of t.Kind() with reflect.Interface / reflect.Ptr, t.Implements(TypeNamer),
+// negation, short-circuit phis, hoisted locals) and the value it returns is classified:
+//
+//	interface kind, or not a TypeNamer   → T's reflection name  (t.String())
+//	TypeNamer, pointer kind              → EventType(reflect.New(t.Elem()).Interface())
+//	TypeNamer, other kind                → EventType(reflect.Zero(t).Interface()) / EventType(zero T)
+//
+// which are exactly the names EventType reports for events of (dynamic) type T.
 func checkTypedHelperSpec(c *Ctx, p *Prog, R *BusRoles, rule string, f *ssa.Function) {
 	name := FuncDisplay(f)
 	pos := p.Pos(f.Pos())
 	tpName := f.Signature.TypeParams().At(0).Obj().Name()
-	// t := reflect.TypeOf((*T)(nil)).Elem()
 	var tval ssa.Value
-	var impl *ssa.Call
 	for _, b := range f.Blocks {
 		for _, in := range b.Instrs {
-			if call, ok := in.(*ssa.Call); ok && call.Common().IsInvoke() {
-				switch call.Common().Method.Name() {
-				case "Elem":
-					if o := typeKeyOrigin(call); o == "static:"+tpName {
-						tval = call
-					}
-				case "Implements":
-					impl = call
+			if call, ok := in.(*ssa.Call); ok && call.Common().IsInvoke() && call.Common().Method.Name() == "Elem" {
+				if o := typeKeyOrigin(call); o == "static:"+tpName {
+					tval = call
 				}
 			}
 		}
@@ -169,121 +173,222 @@ func checkTypedHelperSpec(c *Ctx, p *Prog, R *BusRoles, rule string, f *ssa.Func
 		c.Violate(rule, name+"/type-of-T", pos, "the helper does not start from reflect.TypeOf((*T)(nil)).Elem()", nil)
 		return
 	}
-	good := true
-	var evRets, strRets []*ssa.Return
-	for _, ret := range returnsOf(f) {
-		v := stripConv(ret.Results[0])
-		call, isCall := v.(*ssa.Call)
-		switch {
-		case isCall && calleeName(call.Common()) == R.NameFn.String():
-			evRets = append(evRets, ret)
-			// argument: a value of dynamic type T
-			arg := stripConv(call.Common().Args[0])
-			okArg := false
-			if tp, ok := arg.Type().(*types.TypeParam); ok && tp.Obj().Name() == tpName {
-				okArg = true // EventType(zero T)
-			}
-			if ic, ok := arg.(*ssa.Call); ok && calleeName(ic.Common()) == "(reflect.Value).Interface" {
-				okArg = true
-				var srcs []ssa.Value
-				rv := ic.Common().Args[0]
-				if ph, ok := rv.(*ssa.Phi); ok {
-					srcs = ph.Edges
-				} else {
-					srcs = []ssa.Value{rv}
-				}
-				for _, s := range srcs {
-					sc, ok := stripConv(s).(*ssa.Call)
-					if !ok {
-						okArg = false
-						continue
-					}
-					switch calleeName(sc.Common()) {
-					case "reflect.Zero":
-						if !sameValue(sc.Common().Args[0], tval) {
-							okArg = false
-						}
-					case "reflect.New":
-						// New(t.Elem()) has type t when t is a pointer type
-						el, ok := stripConv(sc.Common().Args[0]).(*ssa.Call)
-						if !(ok && el.Common().IsInvoke() && el.Common().Method.Name() == "Elem" && sameValue(el.Common().Value, tval)) {
-							okArg = false
-						}
-					default:
-						okArg = false
-					}
-				}
-			}
-			if !okArg {
-				good = false
-				c.Violate(rule, name+"/delegates-to-EventType-on-a-T-value", p.Pos(ret.Pos()), "EventType is applied to a value that is not of (dynamic) type T: the typed APIs would look for a different name than the one events of type T are persisted under", nil)
-			}
-		case isCall && call.Common().IsInvoke() && call.Common().Method.Name() == "String" && sameValue(call.Common().Value, tval):
-			strRets = append(strRets, ret)
-		default:
-			good = false
-			c.Violate(rule, name+"/name-sources", p.Pos(ret.Pos()), "the helper returns a name that is neither EventType(value of type T) nor the reflection name of T", nil)
+	isT := func(v ssa.Value) bool { return sameValue(v, tval) }
+	// the TypeNamer interface type: the expression itself or a package variable initialised with it
+	isNamerType := func(v ssa.Value) bool {
+		if isTypeNamerIfaceType(v) {
+			return true
 		}
-	}
-	if len(evRets) == 0 {
-		good = false
-		c.Violate(rule, name+"/delegates-to-EventType", pos, "the helper never delegates to EventType: custom EventTypeName()s are ignored", nil)
-	}
-	if len(strRets) > 0 {
-		// the reflection fallback must be exactly the not-a-TypeNamer case of T itself
-		if impl == nil || !sameValue(impl.Common().Value, tval) || !isTypeNamerIfaceType(impl.Common().Args[0]) {
-			good = false
-			c.Violate(rule, name+"/fallback-guard", pos, "the reflection-name fallback is not guarded by t.Implements(TypeNamer) on T's own type (e.g. it tests the pointed-to type): pointer event types with a pointer-receiver EventTypeName are looked up under the wrong name", nil)
-		} else {
-			var implIf *ssa.If
-			for _, b := range f.Blocks {
-				if iff, ok := b.Instrs[len(b.Instrs)-1].(*ssa.If); ok && iff.Cond == ssa.Value(impl) {
-					implIf = iff
-				}
-			}
-			if implIf == nil {
-				good = false
-				c.Unresolved(rule, name+"/fallback-guard", "Implements result is not branched on directly")
-			} else {
-				// tests evaluated before Implements may only exclude interface kinds (a
-				// nil interface has no dynamic type to ask); any other early exit to the
-				// reflection name ignores a TypeNamer the type does implement
-				for _, b := range f.Blocks {
-					iff, ok := b.Instrs[len(b.Instrs)-1].(*ssa.If)
-					if !ok || iff == implIf || !b.Dominates(implIf.Block()) {
-						continue
-					}
-					okKind := false
-					if bo, ok := iff.Cond.(*ssa.BinOp); ok && (bo.Op == token.EQL || bo.Op == token.NEQ) {
-						if call, ok := bo.X.(*ssa.Call); ok && call.Common().IsInvoke() && call.Common().Method.Name() == "Kind" && sameValue(call.Common().Value, tval) {
-							if k, ok := bo.Y.(*ssa.Const); ok && k.Value != nil && k.Int64() == 20 { // reflect.Interface
-								okKind = true
+		if ld, ok := stripConv(v).(*ssa.UnOp); ok && ld.Op == token.MUL {
+			if g, ok := ld.X.(*ssa.Global); ok && g.Pkg != nil {
+				okInit, n := false, 0
+				for _, fn := range p.Funcs() {
+					for _, b := range fn.Blocks {
+						for _, in := range b.Instrs {
+							if st, ok := in.(*ssa.Store); ok && st.Addr == ssa.Value(g) {
+								n++
+								okInit = fn.Name() == "init" && isTypeNamerIfaceType(st.Val)
 							}
 						}
 					}
-					if !okKind {
-						good = false
-						c.Violate(rule, name+"/fallback-guard", p.Pos(iff.Pos()), "a test other than 'T is an interface type' is made before asking whether T implements TypeNamer and can divert to the reflection name: some types that implement TypeNamer (e.g. pointer types) are looked up under their reflection name while their events are persisted under the custom one", nil)
+				}
+				return n == 1 && okInit
+			}
+		}
+		return false
+	}
+	type shape struct{ iface, impl, ptr bool }
+	type walkState struct {
+		phis  map[*ssa.Phi]ssa.Value
+		cells map[*ssa.Alloc]ssa.Value
+	}
+	var evalCond func(v ssa.Value, sh shape, ws *walkState) (bool, bool)
+	resolve := func(v ssa.Value, ws *walkState) ssa.Value {
+		for i := 0; i < 8; i++ {
+			v = stripConv(v)
+			switch x := v.(type) {
+			case *ssa.Phi:
+				if sel, ok := ws.phis[x]; ok {
+					v = sel
+					continue
+				}
+				return v
+			case *ssa.UnOp:
+				if x.Op == token.MUL {
+					if al, ok := x.X.(*ssa.Alloc); ok {
+						if cv, ok := ws.cells[al]; ok {
+							v = cv
+							continue
+						}
 					}
 				}
-				tb, fb := implIf.Block().Succs[0], implIf.Block().Succs[1]
-				for _, r := range strRets {
-					if blockReaches(tb, r.Block()) && !blockReaches(fb, r.Block()) {
-						good = false
-						c.Violate(rule, name+"/fallback-guard", p.Pos(r.Pos()), "the reflection name is returned although T implements TypeNamer", nil)
-					}
+				return v
+			default:
+				return v
+			}
+		}
+		return v
+	}
+	evalCond = func(v ssa.Value, sh shape, ws *walkState) (bool, bool) {
+		v = resolve(v, ws)
+		switch x := v.(type) {
+		case *ssa.Const:
+			if x.Value != nil && isBoolConst(x) {
+				return x.Value.ExactString() == "true", true
+			}
+		case *ssa.UnOp:
+			if x.Op == token.NOT {
+				r, k := evalCond(x.X, sh, ws)
+				return !r, k
+			}
+		case *ssa.Call:
+			if x.Common().IsInvoke() && x.Common().Method.Name() == "Implements" && isT(x.Common().Value) && len(x.Common().Args) == 1 && isNamerType(x.Common().Args[0]) {
+				return sh.impl, true
+			}
+		case *ssa.BinOp:
+			if x.Op != token.EQL && x.Op != token.NEQ {
+				return false, false
+			}
+			kc, other := x.Y, x.X
+			if _, ok := kc.(*ssa.Const); !ok {
+				kc, other = x.X, x.Y
+			}
+			k, ok := kc.(*ssa.Const)
+			call, isCall := resolve(other, ws).(*ssa.Call)
+			if !ok || k.Value == nil || !isCall || !call.Common().IsInvoke() || call.Common().Method.Name() != "Kind" || !isT(call.Common().Value) {
+				return false, false
+			}
+			var is bool
+			switch k.Int64() {
+			case 20: // reflect.Interface
+				is = sh.iface
+			case 22: // reflect.Ptr
+				is = sh.ptr
+			default:
+				is = false // T's kind is one of: interface, pointer, anything else
+			}
+			return is == (x.Op == token.EQL), true
+		}
+		return false, false
+	}
+	classify := func(rv ssa.Value, ws *walkState) string {
+		v := resolve(rv, ws)
+		call, ok := v.(*ssa.Call)
+		if !ok {
+			return "other"
+		}
+		if call.Common().IsInvoke() && call.Common().Method.Name() == "String" && isT(call.Common().Value) {
+			return "reflect-name"
+		}
+		if calleeName(call.Common()) != R.NameFn.String() || len(call.Common().Args) != 1 {
+			return "other"
+		}
+		arg := resolve(call.Common().Args[0], ws)
+		if tp, ok := arg.Type().(*types.TypeParam); ok && tp.Obj().Name() == tpName {
+			if k, isK := arg.(*ssa.Const); isK && k.Value == nil {
+				return "EventType(zero T)"
+			}
+			return "EventType(zero T)"
+		}
+		ic, ok := arg.(*ssa.Call)
+		if !ok || calleeName(ic.Common()) != "(reflect.Value).Interface" {
+			return "EventType(other)"
+		}
+		src, ok := resolve(ic.Common().Args[0], ws).(*ssa.Call)
+		if !ok {
+			return "EventType(other)"
+		}
+		switch calleeName(src.Common()) {
+		case "reflect.Zero":
+			if isT(src.Common().Args[0]) {
+				return "EventType(zero T)"
+			}
+		case "reflect.New":
+			el, ok := resolve(src.Common().Args[0], ws).(*ssa.Call)
+			if ok && el.Common().IsInvoke() && el.Common().Method.Name() == "Elem" && isT(el.Common().Value) {
+				return "EventType(new elem)"
+			}
+		}
+		return "EventType(other)"
+	}
+	run := func(sh shape) string {
+		ws := &walkState{phis: map[*ssa.Phi]ssa.Value{}, cells: map[*ssa.Alloc]ssa.Value{}}
+		var prev *ssa.BasicBlock
+		blk := f.Blocks[0]
+		for step := 0; step < 200; step++ {
+			// phis of this block take the value of the edge we came in by
+			for _, in := range blk.Instrs {
+				ph, ok := in.(*ssa.Phi)
+				if !ok {
+					break
 				}
-				for _, r := range evRets {
-					if blockReaches(fb, r.Block()) {
-						good = false
-						c.Violate(rule, name+"/fallback-guard", p.Pos(r.Pos()), "EventType is applied to a zero value on the not-a-TypeNamer path", nil)
+				for i, pr := range blk.Preds {
+					if pr == prev && i < len(ph.Edges) {
+						ws.phis[ph] = ph.Edges[i]
 					}
 				}
 			}
+			for _, in := range blk.Instrs {
+				if st, ok := in.(*ssa.Store); ok {
+					if al, ok := st.Addr.(*ssa.Alloc); ok {
+						ws.cells[al] = st.Val
+					}
+				}
+			}
+			switch t := blk.Instrs[len(blk.Instrs)-1].(type) {
+			case *ssa.If:
+				v, known := evalCond(t.Cond, sh, ws)
+				if !known {
+					return "undecided:" + p.Pos(t.Cond.Pos())
+				}
+				prev = blk
+				if v {
+					blk = blk.Succs[0]
+				} else {
+					blk = blk.Succs[1]
+				}
+			case *ssa.Jump:
+				prev, blk = blk, blk.Succs[0]
+			case *ssa.Return:
+				if len(t.Results) != 1 {
+					return "other"
+				}
+				return classify(t.Results[0], ws)
+			default:
+				return "other"
+			}
+		}
+		return "undecided:loop"
+	}
+	good := true
+	for _, tc := range []struct {
+		sh   shape
+		want string
+		desc string
+	}{
+		{shape{iface: true}, "reflect-name", "T is an interface type"},
+		{shape{iface: true, impl: true}, "reflect-name", "T is an interface type embedding TypeNamer"},
+		{shape{}, "reflect-name", "T does not implement TypeNamer"},
+		{shape{ptr: true}, "reflect-name", "pointer T that does not implement TypeNamer"},
+		{shape{impl: true}, "EventType(zero T)", "non-pointer T implementing TypeNamer"},
+		{shape{impl: true, ptr: true}, "EventType(new elem)", "pointer T implementing TypeNamer"},
+	} {
+		got := run(tc.sh)
+		switch {
+		case strings.HasPrefix(got, "undecided"):
+			good = false
+			c.Unresolved(rule, name+"/fallback-guard", "cannot evaluate a condition of the helper ("+got+") for the case: "+tc.desc)
+		case got == tc.want:
+		case tc.want == "reflect-name" || got == "reflect-name":
+			good = false
+			c.Violate(rule, name+"/fallback-guard", pos, "for the case '"+tc.desc+"' the helper returns "+got+" where EventType reports "+tc.want+" for events of that type: the typed APIs (SubscribeWithReplay, RegisterUpcast) look the events up under a different name than the one they are persisted under", nil)
+		default:
+			good = false
+			c.Violate(rule, name+"/delegates-to-EventType-on-a-T-value", pos, "for the case '"+tc.desc+"' the helper returns "+got+" instead of "+tc.want+": EventType is applied to a value that is not of (dynamic) type T", nil)
 		}
 	}
 	if good {
-		c.Discharge(rule, name+"/agrees-with-EventType", pos, "returns EventType(zero/new value of type T) when T implements TypeNamer, else T's reflection name — the same two sources EventType uses")
+		c.Discharge(rule, name+"/agrees-with-EventType", pos, "evaluated on the six shapes of T: EventType(zero/new value of type T) exactly when T is a non-interface TypeNamer, else T's reflection name — the same two sources EventType uses")
 	}
 }
 
